@@ -99,6 +99,10 @@ def check_case(mode, layout, encs, exp, d):
                 'read %r expected %r (layout %d)' % (gb, exp, layout))
     if any(m.type != 'sysex' for m in got):
         return 'non-sysex', repr(got)
+    # the caller owns what it was given: changing it must not show anywhere else
+    for m in got:
+        m.data = (0x55, 0x2a)
+        m.time = 9
     return None
 
 
